@@ -167,6 +167,53 @@ neutral('stop-test-rewritten',A,"		if topItem.activeExpireTime.After(currTime) &
 neutral('reuse-read-buffer-decoder-copies',T,"		defer close(doneCh)\n		for {\n","		defer close(doneCh)\n		var buff []byte\n		for {\n",'read buffer reused while every decoder case copies (first half of a two-site fault, harmless alone)')
 N[-1]['more']=[dict(file=f,find=a,replace=b) for f,a,b in REUSE]
 neutral('octets-not-copied-fresh-buffer',IE,NOCOPY_FIND,NOCOPY_REPL,'octet array keeps the input slice while the buffer is fresh per message (second half, harmless alone)')
+# ---- batch 3: one fault per rule class that had none
+add('C16','v2-template-skips-specifiers',REC,"		infoElement := elements[idx].GetInfoElement()\n		r.addInfoElement(infoElement)\n","		infoElement := elements[idx].GetInfoElement()\n		_ = infoElement\n",'R-EQUIV.template')
+add('C16','v2-length-from-template-len',REC,"			length += elements[idx].GetLength()\n","			length += int(elements[idx].GetInfoElement().Len)\n",'R-EQUIV')
+add('C16','v2-no-prepare',SET,"		record = NewTemplateRecordFromElements(templateID, elements, s.isDecoding)\n		err := record.PrepareRecord()\n		if err != nil {\n			return err\n		}\n","		record = NewTemplateRecordFromElements(templateID, elements, s.isDecoding)\n",'R-EQUIV.prepare')
+add('C16','copy-path-adopts',SET,"		record = NewDataRecord(templateID, len(elements), numExtraElements, s.isDecoding)\n","		record = NewDataRecordFromElements(templateID, elements[:0:len(elements)+numExtraElements], s.isDecoding)\n",'R-EQUIV.no-adopt')
+add('C16','copy-path-skips-first',SET,"	for i := range elements {\n		err := record.AddInfoElement(elements[i])\n","	for i := range elements {\n		if i == 0 && s.setType == Template && len(elements) > 64 {\n			continue\n		}\n		err := record.AddInfoElement(elements[i])\n",'R-EQUIV.copy-path')
+add('C16','template-length-constant',REC,"func (t *templateRecord) GetRecordLength() int {\n	return len(t.buffer)\n","func (t *templateRecord) GetRecordLength() int {\n	return 4 + 4*int(t.fieldCount)\n",'R-EQUIV.record-length')
+add('C16','set-length-getter-header',SET,"func (s *set) GetSetLength() int {\n	return s.length\n","func (s *set) GetSetLength() int {\n	return len(s.headerBuffer) + len(s.records)\n",'R-VALUE.set-accessors')
+add('C02','header-seq-offset',MES,"		binary.BigEndian.PutUint32(m.msgHeader[8:12], seqNum)\n","		binary.BigEndian.PutUint32(m.msgHeader[4:8], seqNum)\n",'R-RFC')
+add('C02','header-len-const',MES,"	MsgHeaderLength  int = 16\n","	MsgHeaderLength  int = 20\n",'R-RFC.const')
+add('C02','version-9',MSG,"	msg.SetVersion(10)\n","	msg.SetVersion(9)\n",'R-RFC.stamp')
+add('C02','enterprise-bit-wrong-byte',REC,"		t.buffer[initialLength] = t.buffer[initialLength] | 0x80\n","		t.buffer[initialLength+1] = t.buffer[initialLength+1] | 0x80\n",'R-RFC.template')
+add('C02','template-set-id-3',SET,"		binary.BigEndian.PutUint16(s.headerBuffer[0:2], TemplateSetID)\n","		binary.BigEndian.PutUint16(s.headerBuffer[0:2], TemplateSetID+1)\n",'R-RFC')
+add('C02','set-length-written-at-0',SET,"		binary.BigEndian.PutUint16(s.headerBuffer[2:4], uint16(s.length))\n","		binary.BigEndian.PutUint16(s.headerBuffer[0:2], uint16(s.length))\n",'R-')
+add('C02','msg-len-without-header',MSG,"	msg.SetMessageLen(uint16(msgLen))\n","	msg.SetMessageLen(uint16(set.GetSetLength()))\n",'R-')
+add('C08','obs-domain-from-seq',E,"	bytesSlice, err := CreateIPFIXMsg(set, ep.obsDomainID, seqNumber, time.Now())\n","	bytesSlice, err := CreateIPFIXMsg(set, seqNumber, seqNumber, time.Now())\n",'R-VALUE.obs-domain')
+add('C08','second-write-of-header',E,"	bytesSent, err := ep.connToCollector.Write(bytesSlice)\n","	if _, err := ep.connToCollector.Write(bytesSlice[:entities.MsgHeaderLength]); err != nil {\n		return 0, err\n	}\n	bytesSent, err := ep.connToCollector.Write(bytesSlice[entities.MsgHeaderLength:])\n",'R-VALUE.one-write')
+add('C08','export-time-ms',MSG,"	msg.SetExportTime(uint32(exportTime.Unix()))\n","	msg.SetExportTime(uint32(exportTime.UnixMilli()))\n",'R-VALUE.export-time')
+add('C08','seq-reset-on-template',E,"	seqNumber := atomic.LoadUint32(&ep.seqNumber)\n","	seqNumber := atomic.SwapUint32(&ep.seqNumber, 0)\n",'R-')
+add('C06','min-picks-later',PQ,"	if pq[i].activeExpireTime.Before(pq[i].inactiveExpireTime) {\n		return pq[i].activeExpireTime\n	} else {\n		return pq[i].inactiveExpireTime\n	}\n","	if pq[i].activeExpireTime.Before(pq[i].inactiveExpireTime) {\n		return pq[i].inactiveExpireTime\n	} else {\n		return pq[i].activeExpireTime\n	}\n",'R-HEAP.min')
+add('C06','pop-first',PQ,"	item := (*pq)[n-1]\n	item.index = -1\n	*pq = (*pq)[0:(n - 1)]\n","	item := (*pq)[0]\n	item.index = -1\n	*pq = (*pq)[1:n]\n",'R-HEAP.pop')
+add('C06','push-index-off',PQ,"	item.index = n\n","	item.index = n + 1\n",'R-HEAP.push')
+add('C06','expiry-from-item-1',A,"a.expirePriorityQueue.minExpireTime(0).Sub(currTime)","a.expirePriorityQueue.minExpireTime(a.expirePriorityQueue.Len() - 1).Sub(currTime)",'R-HEAP.expiry')
+add('C06','delete-when-active-expired',A,"		if !pqItem.inactiveExpireTime.After(currTime) {\n","		if !pqItem.activeExpireTime.After(currTime) {\n",'R-GATE.delete-test')
+add('C06','stop-on-active-only',A,"		if topItem.activeExpireTime.After(currTime) && topItem.inactiveExpireTime.After(currTime) {\n","		if topItem.activeExpireTime.After(currTime) {\n",'R-GATE.stop-test')
+add('C06','rearm-inactive-timeout',A,"		pqItem.activeExpireTime = currTime.Add(a.activeExpiryTimeout)\n		heap.Push(&a.expirePriorityQueue, pqItem)\n	}\n	return nil\n","		pqItem.activeExpireTime = currTime.Add(a.inactiveExpiryTimeout)\n		heap.Push(&a.expirePriorityQueue, pqItem)\n	}\n	return nil\n",'R-VALUE.rearm')
+add('C06','rearm-before-callback',A,"		err := callback(*pqItem.flowKey, pqItem.flowRecord)\n		if err != nil {\n","		pqItem.activeExpireTime = currTime.Add(a.activeExpiryTimeout)\n		err := callback(*pqItem.flowKey, pqItem.flowRecord)\n		if err != nil {\n",'R-VALUE.rearm-after-success')
+add('C06','map-insert-without-push',A,"		pqItem.inactiveExpireTime = currTime.Add(a.inactiveExpiryTimeout)\n		heap.Push(&a.expirePriorityQueue, pqItem)\n	}\n	a.flowKeyRecordMap[*flowKey] = aggregationRecord\n","		pqItem.inactiveExpireTime = currTime.Add(a.inactiveExpiryTimeout)\n		if a.expirePriorityQueue.Len() < 100000 {\n			heap.Push(&a.expirePriorityQueue, pqItem)\n		}\n	}\n	a.flowKeyRecordMap[*flowKey] = aggregationRecord\n",'R-OWNER.insert')
+add('C06','delete-exported-unpaired',A,"func (a *AggregationProcess) SetCorrelatedFieldsFilled(","func (a *AggregationProcess) DropFlow(flowKey FlowKey) {\n	a.mutex.Lock()\n	defer a.mutex.Unlock()\n	delete(a.flowKeyRecordMap, flowKey)\n}\n\nfunc (a *AggregationProcess) SetCorrelatedFieldsFilled(",'R-OWNER.delete')
+add('C07','retries-reset-on-update',A,"		// Reset the inactive expiry time in the queue item with updated aggregate\n","		aggregationRecord.waitForReadyToSendRetries = 0\n		// Reset the inactive expiry time in the queue item with updated aggregate\n",'R-OWNER.retries')
+add('C05','map-insert-second-site',A,"	if !exists {\n		return fmt.Errorf(\"flow key %v is not present in the map\", flowKey)\n	}\n	delete(a.flowKeyRecordMap, flowKey)\n","	if !exists {\n		return fmt.Errorf(\"flow key %v is not present in the map\", flowKey)\n	}\n	delete(a.flowKeyRecordMap, flowKey)\n	if flowKey.Protocol == 0 {\n		a.flowKeyRecordMap[FlowKey{}] = &AggregationFlowRecord{}\n	}\n",'R-OWNER.map-insert')
+add('C12','udp-buffer-hoisted',U,"			for {\n				buff := make([]byte, cp.maxBufferSize)\n				size, address, err := conn.ReadFromUDP(buff)\n","			buff := make([]byte, cp.maxBufferSize)\n			for {\n				size, address, err := conn.ReadFromUDP(buff)\n",'R-OWNER.datagram-buffer')
+add('C12','dtls-no-copy',U,"				cp.handleUDPMessage(address, buffBytes)\n","				_ = buffBytes\n				cp.handleUDPMessage(address, buff[0:size])\n",'R-OWNER.datagram-buffer')
+add('C12','handler-handshake',T,"	address := conn.RemoteAddr().String()\n	// The channels stored in clientHandler","	if tc, ok := conn.(*tls.Conn); ok {\n		_ = tc.Handshake()\n	}\n	address := conn.RemoteAddr().String()\n	// The channels stored in clientHandler",'R-STOP.handler-blocking')
+add('C12','udp-dispatch-plain-send',U,"	select {\n	case client.packetChan <- bytes.NewBuffer(buf):\n		break\n	case <-client.closeClientChan:\n		break\n	}\n","	client.packetChan <- bytes.NewBuffer(buf)\n",'R-STOP.send')
+add('C12','tcp-handler-waits-done-only',T,"	select {\n	case <-cp.stopChan:\n		break\n	case <-doneCh:\n		break\n	}\n","	<-doneCh\n",'R-STOP')
+add('C12','stop-without-wait',P,"	close(cp.stopChan)\n	// wait for all connections to be safely deleted and returned\n	cp.wg.Wait()\n","	close(cp.stopChan)\n",'R-WG.stop')
+add('C12','async-delivery',P,"	cp.messageChan <- message\n","	go func() { cp.messageChan <- message }()\n",'R-OWNER.delivery')
+add('C12','unlock-missing-on-path',P,"func (cp *CollectingProcess) GetNumConnToCollector() int64 {\n	cp.mutex.RLock()\n	defer cp.mutex.RUnlock()\n	return int64(len(cp.clients))\n","func (cp *CollectingProcess) GetNumConnToCollector() int64 {\n	cp.mutex.RLock()\n	if len(cp.clients) == 0 {\n		return 0\n	}\n	n := int64(len(cp.clients))\n	cp.mutex.RUnlock()\n	return n\n",'R-LOCK.balanced')
+add('C12','listener-never-closed',T,"	<-cp.stopChan\n	listener.Close()\n}","	<-cp.stopChan\n}",'R-STOP.netread')
+# ---- the independently seeded changes (seeded/<P>-<mN>/patch.diff) are part of the thorough self-test of their property
+import glob, os
+for d in sorted(glob.glob('/verif/seeded/C*-m*')):
+    if not os.path.exists(d+'/patch.diff'): continue
+    name=os.path.basename(d); prop=name.split('-')[0]
+    M.setdefault(prop,[]).append(dict(name='seed-'+name,file='',find='',replace='',expect='',neutral=False,canary=False,
+        note='independently seeded change, see seeded/%s/meta.json'%name, patch='seeded/%s/patch.diff'%name))
 for p,ms in M.items():
     json.dump(ms, open(f'/verif/checker/mutants/{p}.json','w'), indent=1)
 json.dump(N, open('/verif/checker/mutants/neutral.json','w'), indent=1)
